@@ -115,6 +115,7 @@ class Run(RunBase):
             self.calc = self.load_bytes(self.wd.image(self.N, self.NGF), "calc", keep_open=False)
             self.faults["born-from-image"] += 1
         self.caller = Caller()
+        self.script = None
         self.refmemo = {}
         self.arrmemo = {}
         self.siblings = {}
@@ -250,7 +251,39 @@ class Run(RunBase):
         return True
 
     # ------------------------------------------------------------------ generator
+    def scenario(self, rng):
+        """A quarter of the runs start with a scripted skeleton of a known hazard shape (two inputs cached, a cache-
+        affecting event, a partial re-evaluation in another order, an image, a restart, cache hits on the restored
+        object), with seeded parameters; random ops follow. Multi-step triggers are reached in far fewer runs."""
+        npool = len(self.pool)
+        k1, k2 = rng.randrange(npool), rng.randrange(npool)
+
+        def call(k):
+            return {"op": "call", "k": k, "om2": rng.choice(("default", "default", "small")), "via": "fresh"}
+        event = rng.choice((
+            [], [{"op": "clearcache"}],
+            [{"op": "regen", "N": rng.choice(self.w["ranges"])}],
+            [{"op": "regrid", "n": rng.choice(self.w["grids"]), "adopt": rng.random() < 0.6}],
+            [{"op": "foreign", "k": k1, "pt": rng.randrange(16), "scribble": True, "x": 2.0, "accessor": False, "setrates": False},
+             {"op": "clearcache"}]))
+        tail_ = [call(k2)] if rng.random() < 0.6 else [call(k2), call(k1)]
+        if self.prop == "C13":
+            mid = [self.gen_fork(rng)]
+        else:
+            mid = [{"op": "save", "slot": "a", "mode": "new", "libver": "earliest", "driver": "fileobj"},
+                   {"op": "restart", "slot": "a", "group": 0, "keep_open": False, "how": "hdf5"}]
+        return [call(k1), call(k2)] + event + tail_ + mid + [call(k2), call(k1)]
+
     def propose(self, rng):
+        if self.script is None:
+            self.script = self.scenario(rng) if rng.random() < 0.25 else []
+            if self.script:
+                self.probes["scripted-skeleton"] += 1
+        if self.script:
+            return self.script.pop(0)
+        return self.propose_random(rng)
+
+    def propose_random(self, rng):
         npool = len(self.pool)
         c13 = self.prop == "C13"
         if c13 and self.twin is None and rng.random() < 0.5:
